@@ -147,6 +147,9 @@ func (a *asyncFifoRetryImpl) Run(ctx context.Context) {
 		case <-ctx.Done():
 			return
 		case <-ticker.C:
+			if a.verifStopped() {
+				return
+			}
 		retryLoop:
 			for {
 				breakLoop := a.retry(ctx)
